@@ -98,6 +98,69 @@ def _source_text(j) -> str:
     return _SRC_CACHE[f][b['offset']: e['offset'] + e.get('tokLen', 0)]
 
 
+OWNING = ('object', 'int_', 'str', 'float_', 'bool_', 'bytes', 'tuple', 'list', 'dict', 'set', 'function', 'type', 'none', 'capsule')
+NEW_OBJECT_CTORS = ('int_', 'str', 'float_', 'bool_', 'bytes', 'tuple', 'list', 'dict', 'set')
+
+
+def _qt(j):
+    t = j.get('type', {})
+    return (t.get('desugaredQualType') or t.get('qualType') or '').replace('const ', '').strip()
+
+
+def _is_handle_type(t: str) -> bool:
+    t = t.replace('const ', '').strip()
+    return t in ('pybind11::handle', 'py::handle')
+
+
+def _owning_type(t: str) -> bool:
+    t = t.replace('const ', '').strip()
+    return any(t == f'pybind11::{o}' or t == f'py::{o}' for o in OWNING)
+
+
+def _sole_owner_leaf(j) -> str | None:
+    """Below a materialised temporary of an owning pybind11 type: does some alternative of the expression create a NEW Python
+    object that only this temporary owns (py::int_(i), py::str(..), py::make_tuple(..), reinterpret_steal<..>(..))?"""
+    kind = j.get('kind')
+    inner = j.get('inner', [])
+    if kind in ('ParenExpr', 'CXXBindTemporaryExpr', 'ImplicitCastExpr', 'MaterializeTemporaryExpr', 'ExprWithCleanups'):
+        return next((r for r in map(_sole_owner_leaf, inner) if r), None)
+    if kind == 'ConditionalOperator':
+        return next((r for r in map(_sole_owner_leaf, inner[1:]) if r), None)
+    if kind in ('CXXFunctionalCastExpr', 'CXXTemporaryObjectExpr', 'CXXConstructExpr'):
+        t = _qt(j)
+        short = t.split('::')[-1]
+        if short in NEW_OBJECT_CTORS and kind != 'CXXConstructExpr':
+            return f'{t}(...)'
+        if kind == 'CXXConstructExpr':
+            ctor = j.get('ctorType', {}).get('qualType', '')
+            if short in NEW_OBJECT_CTORS and 'pybind11::' not in ctor.split('(', 1)[-1] and 'py::' not in ctor.split('(', 1)[-1] \
+                    and 'handle' not in ctor and 'object' not in ctor:
+                return f'{t}(...)'
+            return next((r for r in map(_sole_owner_leaf, inner) if r), None)      # copy / move / converting construction
+        return next((r for r in map(_sole_owner_leaf, inner) if r), None)
+    if kind == 'CallExpr':
+        callee = json.dumps(inner[0])[:600] if inner else ''
+        if '"make_tuple"' in callee or '"reinterpret_steal"' in callee:
+            return 'py::make_tuple / reinterpret_steal result'
+    return None
+
+
+def _dangling_handle(j) -> str | None:
+    """A non-owning py::handle that is copy-constructed from a temporary owning object which solely owns a new Python object:
+    the object is released at the end of the full expression, the handle dangles."""
+    kind = j.get('kind')
+    inner = j.get('inner', [])
+    if kind in ('ExprWithCleanups', 'ParenExpr'):
+        return next((r for r in map(_dangling_handle, inner) if r), None)
+    if kind == 'CXXConstructExpr' and _is_handle_type(_qt(j)):
+        return next((r for r in map(_dangling_handle, inner) if r), None)
+    if kind == 'ImplicitCastExpr' and j.get('castKind') in ('DerivedToBase', 'UncheckedDerivedToBase', 'NoOp'):
+        return next((r for r in map(_dangling_handle, inner) if r), None)
+    if kind == 'MaterializeTemporaryExpr' and _owning_type(_qt(j)):
+        return _sole_owner_leaf(j)
+    return None
+
+
 def reduce(j: dict, cur_line: int = 0, keep_cast=False) -> N | None:
     kind = j.get('kind')
     _track_file(j)
@@ -157,6 +220,22 @@ def reduce(j: dict, cur_line: int = 0, keep_cast=False) -> N | None:
                 n['n'] = m.group(1)
     if kind == 'CXXDependentScopeMemberExpr':
         n['n'] = j.get('member', '')
+    if kind == 'VarDecl' and _is_handle_type(_qt(j)) and not (j.get('type', {}).get('qualType', '').rstrip().endswith('&')):
+        n['handle_var'] = True
+        for x in inner:
+            d = _dangling_handle(x)
+            if d:
+                n['dangling'] = d
+    if kind == 'CXXMemberCallExpr' and inner and inner[0].get('kind') == 'MemberExpr' \
+            and inner[0].get('name') in ('emplace_back', 'push_back'):
+        base_t = _qt(inner[0].get('inner', [{}])[0]) if inner[0].get('inner') else ''
+        if 'vector<pybind11::handle' in base_t or 'vector<py::handle' in base_t:
+            n['handle_push'] = True
+            for x in inner[1:]:
+                if x.get('kind') == 'MaterializeTemporaryExpr' and _owning_type(_qt(x)):
+                    d = _sole_owner_leaf(x)
+                    if d:
+                        n['dangling'] = d
     if kind == 'LambdaExpr':
         pass
     if kind == 'IfStmt' and j.get('isConstexpr'):
